@@ -420,6 +420,11 @@ func knownIndexDuplicates(w *World, n *Node, a, b map[string][]byte) string {
 	if classifyDiff(a, b) != "[address-index]" {
 		return ""
 	}
+	return dedupeIndexDuplicates(spentAndTrimmed(w, n), a, b)
+}
+
+// spentAndTrimmed lists the outpoints that some block of the run recorded both as spent and as trimmed (node n's records).
+func spentAndTrimmed(w *World, n *Node) map[string]bool {
 	both := map[string]bool{}
 	db := n.DBs[common.ZONE_CTX]
 	for _, h := range w.Tips {
@@ -435,7 +440,11 @@ func knownIndexDuplicates(w *World, n *Node, a, b map[string][]byte) string {
 			}
 		}
 	}
-	if len(both) == 0 {
+	return both
+}
+
+func dedupeIndexDuplicates(both map[string]bool, a, b map[string][]byte) string {
+	if len(both) == 0 || classifyDiff(a, b) != "[address-index]" {
 		return ""
 	}
 	a2 := map[string][]byte{}
